@@ -10,7 +10,8 @@
 //   "contents": {"<cid>": {"text": "<file bytes>", ...labels used by the driver only...}},
 //   "init": [["name", cid], ...]      files present before the service is created (null: directory absent)
 //   "probe0": bool                    tick + probe right after construction (start-up order)
-//   "yield_us": n                     (with the hooks only) pause up to n us between reading a file and scheduling it
+//   "yield_us": n                     (with the hooks only) pause up to n us between reading a file and scheduling it;
+//   "yield_main_us"/"yield_watcher_us": the same bound per thread (default: yield_us)
 //   "mode": "seq" | "par"             seq: ops and ticks in script order on the main thread;
 //                                     par: file ops on a helper thread, main thread ticks continuously
 //   "ops": [{"op":"write","name":n,"cid":c}            open(O_TRUNC|O_CREAT) + write + close
@@ -20,6 +21,8 @@
 //           {"op":"moveout","name":n}  {"op":"delete","name":n}  {"op":"trunc","name":n}
 //           {"op":"rmdir"}  (unlink everything, rmdir)  {"op":"mkdir"}
 //           {"op":"mksub","name":n} {"op":"rmsub","name":n}
+//           {"op":"bg","us":d,"do":{file op}}          seq mode: a helper thread performs the file op d us from now while
+//                                                      the main thread goes on with the script (joined before quiescence)
 //           {"op":"tick"} (updateDropIns + prerun + runOnce)  {"op":"wait"} (watcher idle)  {"op":"us","n":u}]}
 // Trace:
 //  {"outcome":"ok","hooks":bool,"probe0":[[inst..]..]|null,"probe":[[inst..]..],"probe_b":[[..]..],
@@ -37,6 +40,7 @@
 #include <atomic>
 #include <chrono>
 #include <map>
+#include <memory>
 #include <mutex>
 #include <set>
 #include <thread>
@@ -151,10 +155,11 @@ extern "C" void oomd_verif_dropin_trace(const char* what, const char* tag, const
 
 // schedule widening (fixes/C14-hooks.patch): a pseudo-random pause of up to g_yield_us between reading a
 // drop-in file and scheduling it, on whichever thread does the load
-std::atomic<unsigned> g_yield_us{0};
+std::atomic<unsigned> g_yield_main_us{0}, g_yield_watcher_us{0};
+pthread_t g_main_thread;
 extern "C" void oomd_verif_dropin_yield(const char*) {
   g_hooks_seen = true;
-  unsigned m = g_yield_us.load();
+  unsigned m = pthread_equal(pthread_self(), g_main_thread) ? g_yield_main_us.load() : g_yield_watcher_us.load();
   if (!m) return;
   thread_local unsigned x = 2463534242u ^ (unsigned)(uintptr_t)&x;
   x ^= x << 13;
@@ -353,7 +358,7 @@ std::string readWhole(const std::string& p, bool* ok) {
 struct Ctx {
   std::string dir, stage;
   std::map<int, std::string> text;
-  int stageNo{0};
+  std::atomic<int> stageNo{0};
 };
 
 bool doFileOp(Ctx& c, const Json::Value& op) {
@@ -409,7 +414,8 @@ void runScenario(const Json::Value& sc, Json::Value& out) {
     g_items = Json::Value(Json::arrayValue);
   }
   g_idle_reliable = true;
-  g_yield_us = sc.get("yield_us", 0).asUInt();
+  g_yield_main_us = sc.get("yield_main_us", sc.get("yield_us", 0)).asUInt();
+  g_yield_watcher_us = sc.get("yield_watcher_us", sc.get("yield_us", 0)).asUInt();
   Ctx c;
   std::string top = vh::freshDir("watcher");
   vh::rmrf(top); // pids are reused (pid_max 32768): a crashed earlier process may have left this very path behind
@@ -515,12 +521,24 @@ void runScenario(const Json::Value& sc, Json::Value& out) {
     helper.join();
     for (int r : rc) rcs.append(r);
   } else {
+    std::vector<std::thread> bg;
+    std::vector<std::pair<Json::ArrayIndex, std::shared_ptr<std::atomic<int>>>> bgrc;
     for (const auto& op : ops) {
       std::string k = op["op"].asString();
       g_beat++;
       if (k == "tick") {
         tick();
         rcs.append(1);
+      } else if (k == "bg") {
+        auto res = std::make_shared<std::atomic<int>>(0);
+        bgrc.emplace_back(rcs.size(), res);
+        rcs.append(0);
+        Json::Value inner = op["do"];
+        long us = op["us"].asInt64();
+        bg.emplace_back([&c, inner, us, res]() {
+          if (us > 0) std::this_thread::sleep_for(std::chrono::microseconds(us));
+          *res = doFileOp(c, inner) ? 1 : 0;
+        });
       } else if (k == "wait") {
         bool ok = waitIdle(wtid, 3000);
         idleOk = idleOk && ok;
@@ -529,6 +547,8 @@ void runScenario(const Json::Value& sc, Json::Value& out) {
         rcs.append(doFileOp(c, op) ? 1 : 0);
       }
     }
+    for (auto& t : bg) t.join();
+    for (auto& [i, r] : bgrc) rcs[i] = r->load();
   }
 
   // the file system is quiet from here on: wait for the watcher, run a few ticks, probe
@@ -590,6 +610,7 @@ void runScenario(const Json::Value& sc, Json::Value& out) {
 } // namespace
 
 int main() {
+  g_main_thread = pthread_self();
   // production logging: asynchronous, through the Log singleton's io thread
   ::unsetenv("INLINE_LOGGING");
   vh::mkdirs(vh::scratchRoot());
